@@ -194,6 +194,14 @@ def callsites(ctx, d):
                 ctx.require(np.allclose(got, ref, atol=0, rtol=0), "callsite:TransformDict-key", f"{got} vs {ref}")
                 got2 = td.transform(TransformKey(ss, sd), p)
                 ctx.require(np.allclose(got2, ref, atol=0, rtol=0), "callsite:TransformDict-key", f"{got2} vs {ref}")
+            # lookups by name must find what was registered under the enum members (and vice versa)
+            with ctx.under_test("TransformDict.get / [] (str key)"):
+                ctx.require(td.get((ss, sd)) is mat and td[(ss, sd)] is mat, "callsite:TransformDict-get", f"get/[] with ({ss!r}, {sd!r}) did not return the matrix registered for ({ms}, {md})")
+                ctx.require(td.get([ss, sd]) is mat and td.get(TransformKey(ss, sd)) is mat, "callsite:TransformDict-get", f"get with list / TransformKey spelling of ({ss!r}, {sd!r})")
+            td2 = TransformDict()
+            with ctx.under_test("TransformDict.__setitem__ (str key)"):
+                td2[(ss, sd)] = mat
+                ctx.require(td2.get((ms, md)) is mat and td2[(ms, md)] is mat, "callsite:TransformDict-set", f"matrix registered under ({ss!r}, {sd!r}) is not found under ({ms}, {md})")
     elif site == "HomogeneousMatrix":
         ms, md = FrameID[d["src"]], FrameID[d["dst"]]
         ss, sd = _spell(ms, d["spelling"]), _spell(md, d["spelling"])
